@@ -1,0 +1,11 @@
+//go:build verif
+
+// Contracts for package multi, read by the verification-condition generator
+// in /verif (govc). Comments only; compiled only with the build tag "verif".
+
+package multi
+
+// IsMultiLedgerAssets inspects third-party asset implementations (LedgerBackendID/LedgerID/MapKey);
+// it is treated as a pure, non-panicking function of the asset list (interface contract of multi.Asset).
+//@ func IsMultiLedgerAssets
+//@   trusted
